@@ -86,10 +86,22 @@ def mappings():
     return _NS
 
 
-def new_engine(metadata=None, count_sql=True):
-    """fresh SQLite :memory: engine (one connection per thread, tables created); engine.sqlcount[0] counts statements"""
+def new_engine(metadata=None, count_sql=True, savepoint=False):
+    """fresh SQLite :memory: engine (one connection per thread, tables created); engine.sqlcount[0] counts statements.
+    savepoint=True: the documented pysqlite recipe for SAVEPOINT / transactional DDL (dialects/sqlite/pysqlite.py "Serializable
+    isolation / Savepoints / Transactional DDL"): the driver's own transaction handling is switched off (isolation_level=None)
+    and BEGIN is emitted by a `begin` event, so that Session.begin_nested() / release / rollback-to-savepoint really nest inside
+    the enclosing transaction."""
     from sqlalchemy import create_engine, event
     e = create_engine("sqlite://")
+    if savepoint:
+        @event.listens_for(e, "connect")
+        def _connect(dbapi_connection, connection_record):
+            dbapi_connection.isolation_level = None
+
+        @event.listens_for(e, "begin")
+        def _begin(conn):
+            conn.exec_driver_sql("BEGIN")
     (metadata or mappings().Base.metadata).create_all(e)
     e.sqlcount = [0]
     if count_sql:
